@@ -109,7 +109,20 @@ def plan(tier, seed):
     for lo, hi in chunks(82, 4):
         sh.append(['SHARED', lo, hi])
     sh.append(['FRESHATOM'])
+    for lo, hi in chunks(82, 4):
+        sh.append(['REUSE', lo, hi])
+    for lo, hi in chunks(82, 8):
+        sh.append(['LONGATOMS', lo, hi])
     return sh
+
+
+def nquant(f):
+    if f[0] in ('ap', 't', 'f'):
+        return 0
+    return (1 if f[0] in ('A', 'E') else 0) + sum(nquant(x) for x in f[1:])
+
+
+LONG = {'p': 'request_' + 'x' * 64 + '_granted', 'q': 'request_' + 'x' * 64 + '_pending'}
 
 
 def has_quant(f):
@@ -280,6 +293,60 @@ def run_shard(shard, tier, seed, acc):
                     else:
                         acc.violation('wrong-answer', case, sorted(ref), r[1:] if r[0] != 'ok' else sorted(got))
         return
+    if kind == 'REUSE':
+        # one formula object handed to the checker again and again (same structure twice, then another
+        # structure, then the first again): every answer must be exact and the object must stay as built
+        forms = [f for s_ in (1, 2) for f in spaces.ctls_state_by_size(s_, spaces.LEAVES2)
+                 if nquant(f) >= 2 or (has_quant(f) and f[0] not in ('A', 'E'))][(seed % 2)::2]
+        forms += special_forms()
+        allk = spaces.kripke_reps(2) + spaces.kripke_reps(3, ('p',))[::7]
+        ks = allk[shard[1] * 2:shard[2] * 2]
+        for ki, k in enumerate(ks):
+            k2 = allk[(shard[1] * 2 + ki + 5) % len(allk)]
+            Ka, Kb = lib.to_kripke(k), lib.to_kripke(k2)
+            refs = {id(Ka): (k, Sem(k)), id(Kb): (k2, Sem(k2))}
+            for j, f in enumerate(forms):
+                if j % 32 == 0 and deadline_passed():
+                    acc.capped()
+                    return
+                obj = lib.build(f, lib.CTLS)
+                for step, Kl in enumerate((Ka, Ka, Kb, Ka)):
+                    kk, sem = refs[id(Kl)]
+                    ref = sem.sat(f)
+                    res = as_state_set(call(lib.CTLS.modelcheck, Kl, obj))
+                    acc.ev(1, 1 if 0 < len(ref) < kk.n else 0)
+                    if res != ('set', sorted(ref)):
+                        acc.violation('wrong-answer-on-reused-formula-object',
+                                      kcase(kk, f, call_number=step + 1, first_structure=k.to_json(),
+                                            second_structure=k2.to_json()), sorted(ref), res)
+                        break
+                    rr = call(lib.read, obj)
+                    if rr[0] != 'ok' or rr[1] != f:
+                        acc.violation('formula-object-modified', kcase(kk, f, call_number=step + 1),
+                                      spaces.fstr(f), rr[1:] if rr[0] != 'ok' else spaces.fstr(rr[1]))
+                        break
+        return
+    if kind == 'LONGATOMS':
+        # atoms with long descriptive names that agree in their first 70 characters: the scratch names of
+        # sibling quantified subformulas then share a long prefix
+        forms = [f for s_ in (1, 2) for f in spaces.ctls_state_by_size(s_, spaces.LEAVES2) if nquant(f) >= 2]
+        forms += [('and', ('not', ('E', ('X', P_))), ('E', ('X', Q_))) for P_, Q_ in ((spaces.P, spaces.Q), (spaces.Q, spaces.P))]
+        forms += [('or', ('A', ('G', spaces.P)), ('A', ('G', spaces.Q)), ('E', ('F', ('not', spaces.Q)))),
+                  ('A', ('G', ('imp', ('E', ('X', spaces.P)), ('E', ('X', spaces.Q)))))]
+        for k in (spaces.kripke_reps(2))[shard[1]:shard[2]]:
+            sem = Sem(k)
+            Kl = Kripke(S=list(range(k.n)), R=[(i, j) for i in range(k.n) for j in k.succ[i]],
+                        L=dict((i, set(LONG[a] for a in k.lab[i])) for i in range(k.n)))
+            for j, f in enumerate(forms):
+                if j % 32 == 0 and deadline_passed():
+                    acc.capped()
+                    return
+                ref = sem.sat(f)
+                res = as_state_set(call(lib.CTLS.modelcheck, Kl, lib.build(rename_atoms(f, LONG), lib.CTLS)))
+                acc.ev(1, 1 if 0 < len(ref) < k.n else 0)
+                if res != ('set', sorted(ref)):
+                    acc.violation('wrong-answer', kcase(k, f, long_atom_names=True), sorted(ref), res)
+        return
     if kind == 'SHARED':
         # states with equal labels share ONE set object (installed with replace_labelling_function); also
         # frozensets are not used here because the checker adds fresh atoms to the label sets of its clone
@@ -407,6 +474,25 @@ def replay(art):
                 call(lib.CTLS.modelcheck, Kl, lib.build(f, lib.CTLS))
         return {'violates': lib.snapshot_kripke(Kl) != snap}
     f = spaces.from_jsonable(case['f'])
+    if case.get('long_atom_names'):
+        Kl = Kripke(S=list(range(k.n)), R=[(i, j) for i in range(k.n) for j in k.succ[i]],
+                    L=dict((i, set(LONG[a] for a in k.lab[i])) for i in range(k.n)))
+        res = as_state_set(call(lib.CTLS.modelcheck, Kl, lib.build(rename_atoms(f, LONG), lib.CTLS)))
+        ref = Sem(k).sat(f)
+        return {'violates': res != ('set', sorted(ref)), 'expected': sorted(ref), 'got': res}
+    if 'call_number' in case:
+        k1 = spaces.K.from_json(case['first_structure']) if 'first_structure' in case else k
+        k2 = spaces.K.from_json(case['second_structure']) if 'second_structure' in case else k
+        Ka, Kb = lib.to_kripke(k1), lib.to_kripke(k2)
+        obj = lib.build(f, lib.CTLS)
+        out = []
+        bad = False
+        for Kl, kk in ((Ka, k1), (Ka, k1), (Kb, k2), (Ka, k1)):
+            res = as_state_set(call(lib.CTLS.modelcheck, Kl, obj))
+            out.append(res)
+            rr = call(lib.read, obj)
+            bad = bad or res != ('set', sorted(Sem(kk).sat(f))) or rr[0] != 'ok' or rr[1] != f
+        return {'violates': bad, 'results': out}
     if case.get('fresh_name'):
         from ..runner import Acc
         acc = Acc()
